@@ -49,10 +49,10 @@ ASSUMPTIONS = [
     'NaN entries are only claimed to be supported by rank_transform',
     'values outside the enumerated alphabets are represented by fixed generic fills only',
     '"updated measure name" is read as: a non-empty string different from the source\'s name',
-    'whitened measures go through the library\'s conjugate-gradient solve: tolerance 1e-6',
+    'whitened measures go through the library\'s conjugate-gradient solve: tolerance 1e-5 (largest deviation seen 6e-8)',
 ]
 TOL = 1e-9
-TOL_CG = 1e-6
+TOL_CG = 1e-5
 GAP_MIN = 1e-6
 TOLERANCES = {'transform values': TOL, 'invariance plain': TOL, 'invariance whitened(cg)': TOL_CG,
               'quantile threshold gap below which geo-topological is undefined': GAP_MIN}
@@ -250,7 +250,7 @@ def run_T(case, ctx, vecs=None):
     k, m = vecs.shape
     n_cond = ref.n_from_len(m)
     name = LIBNAME[op]
-    stack = 'stack=%d' % k if k <= 2 else 'stack>2'
+    stack = 'stack=1' if k == 1 else 'stack>1'
     has_nan = bool(np.isnan(vecs).any())
     cfg = stack + (',nan' if has_nan else '')
     if op == 'rank':
@@ -664,12 +664,14 @@ def shards(tier, seed):
                 inv(method, sigma, ['alpha', 'm1012^3', [a, a + 32]], maps=half)
         if th:
             rows = [27 * i + (i * 7) % 27 for i in range(27)]
-            for a in range(0, 27, 9):
-                inv(method, sigma, ['alpharows', '012^6', rows[a:a + 9]])
+            chunk = 3 if slow else 9
+            for a in range(0, 27, chunk):
+                inv(method, sigma, ['alpharows', '012^6', rows[a:a + chunk]])
     for method, sigma in meth_sig:
         for n_cond in ((4, 5, 6) if th else (4, 5)):
-            for fill in range(20 if th else 4):
-                out.append({'kind': 'Ifill', 'method': method, 'sigma': sigma, 'n_cond': n_cond, 'fill': fill})
+            for f0 in range(0, 20 if th else 4, 5 if th else 2):
+                out.append({'kind': 'Ifill', 'method': method, 'sigma': sigma, 'n_cond': n_cond,
+                            'fills': [f0, f0 + (5 if th else 2)]})
     # ---- L: spearman == corr of rank-transformed
     out.append({'kind': 'L', 'src': ['alpha', '012^3', [0, 27]]})
     out.append({'kind': 'L', 'src': ['alpha', 'm1012^3', [0, 64]]})
@@ -698,17 +700,18 @@ def run_shard(shard, ctx):
             if base is None:
                 break
     elif kind == 'Ifill':
-        for vk in ('signed', 'ties', 'nonneg'):
-            src = ['fill', shard['n_cond'], shard['fill'], vk]
-            for mp in maps_for(shard['method']):
-                if MAPS[mp][1] == 'nonneg' and vk != 'nonneg':
-                    continue
-                base = None
-                for side in ('x', 'y', 'xy'):
-                    base = run_I({'kind': 'I', 'method': shard['method'], 'sigma': shard['sigma'], 'src': src,
-                                  'map': mp, 'side': side}, ctx, base)
-                    if base is None:
-                        break
+        for fill in range(shard['fills'][0], shard['fills'][1]):
+            for vk in ('signed', 'ties', 'nonneg'):
+                src = ['fill', shard['n_cond'], fill, vk]
+                for mp in maps_for(shard['method']):
+                    if MAPS[mp][1] == 'nonneg' and vk != 'nonneg':
+                        continue
+                    base = None
+                    for side in ('x', 'y', 'xy'):
+                        base = run_I({'kind': 'I', 'method': shard['method'], 'sigma': shard['sigma'],
+                                      'src': src, 'map': mp, 'side': side}, ctx, base)
+                        if base is None:
+                            break
     elif kind == 'L':
         run_L(shard, ctx)
     else:
